@@ -243,8 +243,9 @@ def table_checks(binpath, res, seed, n):
         names = rng.sample(common.ALL_KEYS, rng.randrange(1, 5))
         table = {}
         expect_ids = set()
+        absent_ids, own_filed = set(), set()
         for k in names:
-            mode = rng.choice(["own", "own", "own_variant", "others_id", "random_id", "inner_keyid_lies", "wrong_length"])
+            mode = rng.choice(["own", "own", "own_variant", "others_id", "random_id", "inner_keyid_lies", "wrong_length", "own_id_in_capitals"])
             pub = W.pub(k)
             if mode == "own_variant":
                 # the same key material described without / with an empty / with another hash-algorithm list: a different
@@ -262,9 +263,19 @@ def table_checks(binpath, res, seed, n):
                 table[kid] = pub
                 expect_ids.add(kid)
                 continue
+            if mode == "own_id_in_capitals":
+                # an identifier is a text: the key's id written with capital hex digits is another text, hence not the key's id
+                up = W.kid(k).upper() if rng.random() < 0.6 else "".join(ch.upper() if j % 5 == 0 else ch for j, ch in enumerate(W.kid(k)))
+                if up != W.kid(k):
+                    if rng.random() < 0.5:
+                        pub["keyid"] = up
+                    table[up] = pub
+                    absent_ids.add(W.kid(k))
+                continue
             if mode == "own":
                 table[W.kid(k)] = pub
                 expect_ids.add(W.kid(k))
+                own_filed.add(W.kid(k))
             elif mode == "others_id":
                 other = rng.choice([x for x in common.ALL_KEYS if x != k])
                 table[W.kid(other)] = pub
@@ -279,7 +290,7 @@ def table_checks(binpath, res, seed, n):
             else:
                 table[W.kid(k)[:40]] = pub
         layout = scen.mk_layout(W, [], [], [], "2030-01-01T00:00:00Z", "", keys=table)
-        cases.append({"op": "serde", "type": "layout", "text": json.dumps(layout), "meta": {"table_modes": sorted(table), "expect_ids": sorted(expect_ids)}})
+        cases.append({"op": "serde", "type": "layout", "text": json.dumps(layout), "meta": {"table_modes": sorted(table), "expect_ids": sorted(expect_ids), "absent_ids": sorted(absent_ids - own_filed)}})
     obs = common.run_batch(binpath, cases)
     for c, o in zip(cases, obs):
         if "ch" not in o:
@@ -294,6 +305,12 @@ def table_checks(binpath, res, seed, n):
             if kid != own or entry.get("keyid") != kid:
                 res.violate("key-table-maps-id-to-other-key", f"parsed layout maps id {kid} to a key whose own id is {own}",
                             c, {"keys": keys}, "entry dropped")
+        for kid in c["meta"]["absent_ids"]:
+            res.classes["key_table:entry_filed_under_capital_spelling"] += 1
+            if kid in keys or kid.upper() in keys:
+                res.violate("key-table-keeps-entry-filed-under-another-spelling-of-its-id",
+                            f"a key filed only under a capital-letter spelling of its id is in the parsed table under {kid if kid in keys else kid.upper()}",
+                            c, {"keys": list(keys)}, "entry dropped")
         for kid in c["meta"]["expect_ids"]:
             if kid not in keys:
                 res.violate("key-table-drops-correct-entry", f"correctly filed key {kid} missing after parsing", c, {"keys": list(keys)}, None)
@@ -307,7 +324,7 @@ def alias_e2e(binpath, res, seed, n):
     for i in range(n):
         k1, k2 = rng.sample(pool, 2)
         mode = rng.choice(["control", "sig_labelled_k1", "honest_label_k2", "inner_keyid_lies", "table_has_both", "both_authorised",
-                           "unknown_key_next_to_known", "unknown_key_next_to_known"])
+                           "unknown_key_next_to_known", "unknown_key_next_to_known", "label_in_capitals"])
         step = scen.mk_step("build", 1, [W.kid(k1)], [], [["ALLOW", "*"]], [["ALLOW", "*"]])
         if mode == "both_authorised":
             # K1 and K2 are both functionaries of a threshold-2 step; only K2 signs.  The file named for K1 carries K2's
@@ -321,7 +338,7 @@ def alias_e2e(binpath, res, seed, n):
             step = scen.mk_step("build", 1, [W.kid(k1), W.kid(k2)], [], [["ALLOW", "*"]], [["ALLOW", "*"]])
         if mode == "unknown_key_next_to_known":
             table = {rng.choice(["ab" * 32, W.kid("ed0")]): W.pub(k1), W.kid(k2): W.pub(k2)}
-        elif mode == "control":
+        elif mode in ("control", "label_in_capitals"):
             table = {W.kid(k1): W.pub(k1)}
         elif mode == "inner_keyid_lies":
             pub2["keyid"] = W.kid(k1)
@@ -335,7 +352,7 @@ def alias_e2e(binpath, res, seed, n):
         layout = scen.mk_layout(W, [], [step], [], keys=table)
         plans.append((mode, k1, k2, len(reqs)))
         reqs.append((layout, ["ed0"], "new"))
-        reqs.append((pipeline.leaf_link("build", 0), [k1 if mode == "control" else k2], "new"))
+        reqs.append((pipeline.leaf_link("build", 0), [k1 if mode in ("control", "label_in_capitals") else k2], "new"))
     wires = scen.sign_all(binpath, reqs, nproc=1)
     cases = []
     for mode, k1, k2, b in plans:
@@ -343,6 +360,10 @@ def alias_e2e(binpath, res, seed, n):
         if mode in ("sig_labelled_k1", "inner_keyid_lies", "table_has_both"):
             link["signatures"][0]["keyid"] = W.kid(k1)
             fname = f"build.{W.pfx(k1)}.link"
+        elif mode == "label_in_capitals":
+            # K1's own, valid signature - attributed to the capital-letter spelling of K1's id, in the entry and in the file name
+            link["signatures"][0]["keyid"] = W.kid(k1).upper()
+            fname = f"build.{W.pfx(k1).upper()}.link" if rng.random() < 0.5 else f"build.{W.pfx(k1)}.link"
         elif mode == "honest_label_k2":
             fname = f"build.{W.pfx(k2)}.link"
         else:
